@@ -994,6 +994,31 @@ def run_history(ctx, hs, mon, ph, Q, meta, case, hrng):
     ask_dists(meta, objs[0], seq=True, step="second-call")  # the very first object the circuit was asked about
     ctx.count("hist:second-call")
 
+    # ---- (a'') near neighbours: a candidate, then candidates within relative 3e-6 / 1e-8 of it in variable space (what a
+    # line search or a finite-difference quotient asks); each answer belongs to the object asked, not to its neighbour
+    # an object whose outcome probabilities are all well above the truncation thresholds, so that every row of its
+    # neighbours' distributions is judged (the hooks leave rows with entries in (1e-12, 1e-6) unjudged)
+    inner = [x for x in list(objs) + list(cand) if float(np.min(np.real(R.born_all(raw_of(x))))) >= 1e-3]
+    o = inner[int(hrng.integers(0, len(inner)))] if inner else objs[int(hrng.integers(0, len(objs)))]
+    okv, v = ctx.attempt(o.to_var)
+    pool = [x for x in list(objs) + list(cand) if x is not o]
+    okw, w = ctx.attempt(pool[int(hrng.integers(0, len(pool)))].to_var) if pool else (False, None)
+    if okv and okw and np.shape(v) == np.shape(w):
+        v, w = np.asarray(v, dtype=np.float64), np.asarray(w, dtype=np.float64)
+        ask_dists(meta, o, step="near-neighbour")
+        for rel in (3e-6, 1e-8):
+            # a step towards another object of the case: stays normalised under both parametrisations
+            okn, o2 = ctx.attempt(o.generate_from_var, v + rel * (w - v) / max(1e-12, float(np.max(np.abs(w - v)))) * max(1.0, float(np.max(np.abs(v)))))
+            if okn:
+                ask_dists(meta, o2, step="near-neighbour", k=3)
+        if flag:
+            # with the equality constraint built in every variable vector is normalised: a purely relative change
+            okn, o2 = ctx.attempt(o.generate_from_var, v * (1.0 + 3e-6))
+            if okn:
+                ask_dists(meta, o2, step="near-neighbour", k=3)
+        ask_dists(meta, o, step="near-neighbour")
+        ctx.count("hist:near-neighbour")
+
     # ---- (a') the library's consumers of the model run, then the model is asked again (results of the consumers: not judged)
     o = objs[0]
     nS = len(R.sched)
